@@ -22,7 +22,7 @@ import (
 func TestVerifC15(t *testing.T) {
 	vfMain(t, vfCheck{
 		ID: "C15", Level: "exploration",
-		Rule: "many short histories: 2..8 goroutines x 5..12 single-packet operations (ReadAt, WriteAt with a fill value unique in the history, size queries via File.Stat and Client.Stat) on a 16..64-byte file through 1..3 handles of one Client; request server over the mutex-atomic store: multi-byte operations, one partition; os-backed server: 1-byte operations partitioned by offset (a pread concurrent with a pwrite may tear on the page cache; a byte cannot). Allocator on/off, reorder proxy, worker/ready hook delays, GOMAXPROCS in {1,2,4,16}. Checked with porcupine v1.3.0 (60 s cap => inconclusive). A class is (server, allocator, goroutines, handles, GOMAXPROCS); non-trivial when operations really overlapped in time.",
+		Rule:        "many short histories: 2..8 goroutines x 5..12 single-packet operations (ReadAt, WriteAt with a fill value unique in the history, size queries via File.Stat and Client.Stat) on a 16..64-byte file through 1..3 handles of one Client; request server over the mutex-atomic store: multi-byte operations, one partition; os-backed server: 1-byte operations partitioned by offset (a pread concurrent with a pwrite may tear on the page cache; a byte cannot). Allocator on/off, reorder proxy, worker/ready hook delays, GOMAXPROCS in {1,2,4,16}. Checked with porcupine v1.3.0 (60 s cap => inconclusive). A class is (server, allocator, goroutines, handles, GOMAXPROCS); non-trivial when operations really overlapped in time.",
 		Assumptions: []string{"the backing store's own ReadAt/WriteAt are atomic (store mutex; single bytes on the os file)", "file size does not change", "race detector on"},
 		Units: func(tier vfTier, seed uint64) int {
 			if tier == vfThorough {
